@@ -162,7 +162,9 @@ def repo_tree_hash():
         import hashlib
 
         h = hashlib.sha1()
-        root = "/repo/src/tensora"
+        import tensora
+
+        root = os.path.dirname(tensora.__file__)
         for dp, dn, fn in sorted(os.walk(root)):
             dn.sort()
             for f in sorted(fn):
